@@ -8,7 +8,7 @@ from awesomeyaml import errors as ayerr
 
 PROPERTY = {
     'id': 'C14',
-    'technique': 'CrossHair symbolic execution of parse/merge/Config.check_missing with symbolic booleans deciding which of 6 positions hold !required and which of them a later stage overrides or deletes; z3 decides every path; call log proves nothing ran before the error',
+    'technique': 'CrossHair symbolic execution of parse/merge/Config.check_missing over all 64 placements of !required on 6 positions (case splits) with symbolic selectors deciding which of them a later stage overrides or deletes; z3 decides every path; call log proves nothing ran before the error',
     'assumptions': ['recording callables engine.targets.f/g stand for arbitrary side-effecting targets'],
     'bounds': {'positions': 'top level, nested mapping (depth 2), list element, nested list in mapping, !call argument, !bind argument',
                'later stage': 'per position: untouched | overridden by a value | deleted (value-less !del) - symbolic', 'stages': '2 (quick) / 3 (thorough: the override arrives in stage 3, stage 2 re-adds one placeholder)'},
@@ -20,8 +20,9 @@ PROPERTY = {
 SLOTS = ['r0', 'n.d.r1', 'l[1]', 'n.k[0]', 'c.x', 'bd.y']
 
 
-def c14_required(split, q0, q1, q2, q3, q4, q5, a0, a1, a2, a3, a4, a5):
+def c14_required(split, a0, a1, a2, a3, a4, a5):
     reset()
+    q0, q1, q2, q3, q4, q5 = [bool(split['bits'] & (1 << i)) for i in range(6)]
     req = [q0, q1, q2, q3, q4, q5]
     act = [a0, a1, a2, a3, a4, a5]
 
@@ -115,8 +116,13 @@ def _splits(tier):
     out = []
     # the six placeholder bits are fixed per split (load balancing); the later-stage actions stay symbolic
     for bits in range(64):
-        pre = ' and '.join(('' if bits & (1 << i) else 'not ') + 'q%d' % i for i in range(6))
-        out.append({'bits': bits, 'three': 0, 'inc': False, '_pre': pre})
+        pre = ' and '.join(['True'] + ['a%d == 0' % i for i in range(6) if not bits & (1 << i)])
+        if bin(bits).count('1') >= 4 and (bits & 1):
+            for k in range(3):
+                for k2 in (range(3) if (bits & 2) and bin(bits).count('1') >= 5 else (None,)):
+                    out.append({'bits': bits, 'three': 0, 'inc': False, '_pre': pre + ' and a0 == %d' % k + ('' if k2 is None else ' and a1 == %d' % k2)})
+        else:
+            out.append({'bits': bits, 'three': 0, 'inc': False, '_pre': pre})
         if not (bits & 1) and not (bits & 48) and (bits & 10):
             out.append({'bits': bits, 'three': 0, 'inc': True, '_pre': pre})
         if tier != 'quick' and bits % 3 == 1:
@@ -127,9 +133,8 @@ def _splits(tier):
 
 HARNESSES = {
     'c14_required': Harness('c14_required', c14_required,
-                            [('q0', 'bool'), ('q1', 'bool'), ('q2', 'bool'), ('q3', 'bool'), ('q4', 'bool'), ('q5', 'bool'),
-                             ('a0', 'int', 0, 2), ('a1', 'int', 0, 2), ('a2', 'int', 0, 2), ('a3', 'int', 0, 2), ('a4', 'int', 0, 2), ('a5', 'int', 0, 2)],
+                            [('a0', 'int', 0, 2), ('a1', 'int', 0, 2), ('a2', 'int', 0, 2), ('a3', 'int', 0, 2), ('a4', 'int', 0, 2), ('a5', 'int', 0, 2)],
                             _splits,
-                            pre='(q0 or a0 == 0) and (q1 or a1 == 0) and (q2 or a2 == 0) and (q3 or a3 == 0) and (q4 or a4 == 0) and (q5 or a5 == 0) and a3 != 1 and a4 != 2 and a5 != 1',
-                            doc='6 positions x (placeholder? symbolic) x (later stage: untouched/override/delete, symbolic; only placeholders are touched)', witnesses=('built', 'refused')),
+                            pre='a3 != 1 and a4 != 2 and a5 != 1',
+                            doc='6 positions x (placeholder? by case split) x (later stage: untouched/override/delete, symbolic; only placeholders are touched)', witnesses=('built', 'refused')),
 }
